@@ -3,6 +3,9 @@ package decorator
 import (
 	"testing"
 
+	"k8s.io/apimachinery/pkg/apis/meta/v1/unstructured"
+	"k8s.io/client-go/tools/cache"
+
 	vs "metacontroller/pkg/internal/verifsim"
 	vw "metacontroller/pkg/internal/verifworld"
 )
@@ -41,4 +44,26 @@ func TestVerifC13Decorator(t *testing.T) {
 
 func TestVerifC16Decorator(t *testing.T) {
 	vs.Run(t, "C16", func(c *vs.Case) error { return vw.PropC16(c, decoratorFactory) })
+}
+
+func TestVerifC14Decorator(t *testing.T) {
+	vs.Run(t, "C14", func(c *vs.Case) error { return vw.PropC14(c, decoratorFactory, "decorator") })
+}
+
+func TestVerifC14Regressions(t *testing.T) {
+	vs.RunFixed(t, "C14", map[string]func() error{
+		// F5: a parent delete delivered as a tombstone must be queued under a key sync() can parse
+		"decorator-parent-delete-tombstone-key": func() error {
+			parent := &unstructured.Unstructured{Object: map[string]any{"apiVersion": "ex.io/v1", "kind": "Thing",
+				"metadata": map[string]any{"name": "p1", "namespace": "ns1"}}}
+			key, err := parentQueueKey(cache.DeletedFinalStateUnknown{Key: "ns1/p1", Obj: parent})
+			if err != nil {
+				return vs.Violf("C14/unparsable-queue-key", "no key for a parent tombstone: %v", err)
+			}
+			if _, _, ns, name, err := splitParentQueueKey(key); err != nil || ns != "ns1" || name != "p1" {
+				return vs.Violf("C14/unparsable-queue-key", "the handler enqueued key %q for a deleted parent, which sync cannot parse back (%v)", key, err)
+			}
+			return nil
+		},
+	})
 }
